@@ -32,7 +32,9 @@ MANIFEST = dict(
           "and XML-flavoured trees x formatters x indent settings x start levels against the Lean mirror and spec, and the direct "
           "Python oracle of the statement incl. html.parser re-parse of both outputs."),
     design="7/C14",
-    note=("Tag and string pieces (_format_tag, output_ready) are inputs of the model (C05/C06/C15 own them). The 'only whitespace' "
+    note=("Whitespace is Python's (str.isspace): under formatters that do not turn them into entities (minimal, None) pretty-printing "
+          "also strips leading/trailing NBSP, U+3000 etc. from text nodes -- 'only whitespace' by this definition, though visible in a "
+          "browser (observation, not claimed as a defect). Tag and string pieces (_format_tag, output_ready) are inputs of the model (C05/C06/C15 own them). The 'only whitespace' "
           "claims carry the hypothesis that the indent unit is whitespace; Formatter(indent='--') is run for model correspondence "
           "and line structure only. A hidden whitespace-preserving element (hidden=True set by hand on a pre) has no opening/closing "
           "piece and therefore no line of its own: modelled and compared, excluded from the line-structure/newline oracle. "
@@ -626,8 +628,19 @@ def real_events(recv, contents_only, idmap):
 # --------------------------------------------------------------------------------------
 # one document
 # --------------------------------------------------------------------------------------
+MAX_PER_KIND = 12
+
+
+def report(ctx: Ctx, what, **kw):
+    """ctx.violation, at most MAX_PER_KIND times per kind of failure (the rest is only counted)"""
+    key = "violations:" + what[:60]
+    ctx.count(key)
+    if ctx.dist[key] <= MAX_PER_KIND:
+        ctx.violation(what, **kw)
+
+
 CALLS_FULL = [["decode", None], ["prettify"], ["decode", 0], ["decode", 1], ["decode", 2], ["decode_contents", 0],
-              ["decode_contents", 1], ["decode_contents", None], ["prettify_enc"], ["decode", -1], ["decode", True], ["decode", 5]]
+              ["decode_contents", 1], ["decode_contents", None], ["prettify_enc"], ["decode", -1], ["decode", True], ["decode", 5], ["decode", False]]
 
 
 def do_call(recv, call, farg):
@@ -706,7 +719,7 @@ def check_document(ctx: Ctx, recipe, stream, r, specs_pool, unit_of_spec, reques
     if recipe["builder"] == "default" and not recipe.get("edits"):
         for t in tags:
             if set(t.preserve_whitespace_tags or ()) != PROP_HTML_PRESERVE:
-                ctx.violation("a tag of the default HTML builder does not treat exactly pre/textarea as whitespace-preserving",
+                report(ctx, "a tag of the default HTML builder does not treat exactly pre/textarea as whitespace-preserving",
                               case={"recipe": recipe, "tag": t.name}, expected=sorted(PROP_HTML_PRESERVE),
                               observed=sorted(t.preserve_whitespace_tags or ()), stream=stream)
                 break
@@ -746,7 +759,7 @@ def check_document(ctx: Ctx, recipe, stream, r, specs_pool, unit_of_spec, reques
             if spec[0] in ("name", "func"):
                 unit = " "                       # property: the built-in formatters indent by one space
                 if fmt.indent != unit:
-                    ctx.violation("a built-in formatter's indent unit is not one space", case={"formatter": spec},
+                    report(ctx, "a built-in formatter's indent unit is not one space", case={"formatter": spec},
                                   expected=" ", observed=fmt.indent, stream=stream)
                     unit = fmt.indent
             elif spec[0] == "base":
@@ -768,7 +781,7 @@ def check_document(ctx: Ctx, recipe, stream, r, specs_pool, unit_of_spec, reques
                     ctx.count("recv-has:" + f)
                 calls = CALLS_FULL[:5] + r.sample(CALLS_FULL[5:], 2)
                 if isinstance(recv, BS):
-                    calls = [c for c in calls if c[-1] is not True]
+                    calls = [c for c in calls if not isinstance(c[-1], bool)]   # BeautifulSoup.decode: deprecated bool meaning
                 plain = None
                 for call in calls:
                     real = do_call(recv, call, farg)
@@ -776,7 +789,7 @@ def check_document(ctx: Ctx, recipe, stream, r, specs_pool, unit_of_spec, reques
                     co = call[0] == "decode_contents"
                     if isinstance(recv, BS) and recv.is_xml:
                         if not real.startswith(XML_DECL):
-                            ctx.violation("XML-flavoured BeautifulSoup output lacks the XML declaration line",
+                            report(ctx, "XML-flavoured BeautifulSoup output lacks the XML declaration line",
                                           case={"recipe": recipe, "formatter": spec, "call": call}, expected=XML_DECL,
                                           observed=real[:60], stream=stream)
                         else:
@@ -798,22 +811,22 @@ def check_document(ctx: Ctx, recipe, stream, r, specs_pool, unit_of_spec, reques
                             ctx.count("oracle:skipped-hidden-pre")
                         else:
                             if real != want:
-                                ctx.violation("pretty output is not 'every tag and non-blank string on its own line at unit x depth, "
+                                report(ctx, "pretty output is not 'every tag and non-blank string on its own line at unit x depth, "
                                               "whitespace-preserving elements verbatim'", case=case, expected=want, observed=real,
                                               stream=stream)
                             if real != "" and not real.endswith("\n"):
-                                ctx.violation("pretty output does not end with a newline", case=case, expected="...\\n",
+                                report(ctx, "pretty output does not end with a newline", case=case, expected="...\\n",
                                               observed=real[-20:], stream=stream)
                         if unit_ws and call[0] != "decode_contents" and plain is not None:
                             if dropws(real) != dropws(plain):
-                                ctx.violation("pretty and plain output differ in non-whitespace characters", case=case,
+                                report(ctx, "pretty and plain output differ in non-whitespace characters", case=case,
                                               expected=dropws(plain), observed=dropws(real), stream=stream)
                             ctx.count("oracle:nonws")
                         if call == ["prettify"] and unit_ws and plain is not None and pc.inert:
                             ok, a, b = reparse_equal(real, plain, plain_html)
                             ctx.count("oracle:reparse" + (":exact-pre" if plain_html else ""))
                             if not ok:
-                                ctx.violation("re-parse of the pretty output differs from re-parse of the plain output "
+                                report(ctx, "re-parse of the pretty output differs from re-parse of the plain output "
                                               "(whitespace in text disregarded" + (", exact inside pre/textarea)" if plain_html else ")"),
                                               case=case, expected=repr(b)[:2000], observed=repr(a)[:2000], stream=stream)
                         if len(feats[id(recv)]) >= 1 and len(real) > 0:
@@ -978,7 +991,7 @@ def run(ctx: Ctx):
             continue
         if len(got) != len(want):
             ctx.corr_disagreements += 1
-            ctx.violation("model reply malformed", case={"recipe": q["recipe"], "formatter": q["formatter"], "reply": rp[:200]},
+            report(ctx, "model reply malformed", case={"recipe": q["recipe"], "formatter": q["formatter"], "reply": rp[:200]},
                           stream=q["stream"] + "-model", no_failing_input=True)
             continue
         for (path, call), a, b in zip(q["metas"], want, got):
@@ -987,7 +1000,7 @@ def run(ctx: Ctx):
                 case = {"recipe": q["recipe"], "receiver": path, "formatter": q["formatter"], "call": call, "which": q["kind"]}
                 # the oracle above already judged this output; a disagreement with the model alone is reported without a failing input
                 already = any(v["case"].get("recipe") == q["recipe"] and not v.get("no_failing_input_found") for v in ctx.violations)
-                ctx.violation(f"model ({q['kind']}) and implementation disagree", case=case,
+                report(ctx, f"model ({q['kind']}) and implementation disagree", case=case,
                               observed=a if q["kind"] == "ev" else unshow(a), model=b if q["kind"] == "ev" else unshow(b),
                               stream=q["stream"] + "-model", no_failing_input=not already)
                 break
@@ -1001,6 +1014,13 @@ def run(ctx: Ctx):
 def replay(path):
     v = json.load(open(path))
     c = v["case"]
+    if c.get("op") == "indent" or ("indent" in c and "language" in c):
+        F = E()["Formatter"]
+        a = c["indent"]
+        real = F(c.get("language") or F.HTML, indent=indent_value(a)).indent if a[0] != "omit" else F(c.get("language")).indent
+        print(f"Formatter(indent={indent_value(a) if a[0] != 'omit' else '<default>'!r}).indent = {real!r}; documented unit {prop_unit(a)!r}; "
+              f"model {v.get('model_reply')!r}")
+        return 0 if real == prop_unit(a) else 1
     if "recipe" not in c:
         print(json.dumps(v, indent=1)[:3000])
         return 1
